@@ -1,10 +1,16 @@
 """C20 - derived unit, category and type strings render every factor unambiguously.
 
-Decided by: Barril/Props/C20.lean - `parse_render` (parse . render = id for ANY factor list over atomic
-symbols), `unit_string_roundtrip`, `renderStr_lists_every_factor`, `simple_strings_verbatim`, ... proved
-about the hand-written model `Barril/Model/Str.lean` of `_MakeStr`,
-`_CreateUnitsWithJoinedExponentsString`, `GetComposingUnitsJoiningExponents`, `GetUnitName` and the
-derived branch of `Quantity.__init__`.
+Decided by: Barril/Props/C20.lean - `parse_render` (parse . render = numerators ++ denominators for ANY factor
+list over atomic symbols, any exponents), `unit_string_layout`, `render_unambiguous`, `parse_atomic`,
+`written_factors_perm`, `joined_keys_nodup / joined_keys / joined_keys_order / joined_exponent` (what "joined"
+means), `unit_string_roundtrip` (the unit string of a derived quantity built from any entry list),
+`renderStr_lists_every_factor`, `derived_category_and_type_strings`, `unit_name_lists_every_factor`,
+`obtain_simple_iff`, `simple_strings_verbatim`, `value_repr_shows_unit`; proved about the hand-written model
+`Barril/Model/Str.lean` (the grammar parser `parseUnit`, `atomic`, `decimal`) and `Barril/Model/StrRender.lean`
+(`makeStr` = `_MakeStr`, `renderUnit` = `_CreateUnitsWithJoinedExponentsString`, `joinExps` =
+`GetComposingUnitsJoiningExponents`, `Quantity.unitName` = `GetUnitName`, `obtainFromDict / newSimple / newDerived`
+= the dict form of `ObtainQuantity` and the two branches of `Quantity.__init__`, `scalarRepr / valueStr /
+arrayRepr`).
 
 Tie: derived quantities are built on the REAL code (Scalar / Quantity products, quotients, powers,
 reciprocals; `ObtainQuantity(OrderedDict)` for entry lists arithmetic cannot produce), their internal entry
@@ -25,7 +31,7 @@ LEAN_MODULES = ["Barril.Props.C20"]
 DRIVERS = ["drv_str"]
 DRIVER_EXE = "drv_str"
 RULE = ("derived quantities built on the real code: (a) profiles - 0..4 numerator and 0..4 denominator categories "
-        "(0..8 in the thorough tier) drawn from a pool of >= 40 (category, atomic unit) pairs over >= 12 quantity "
+        "(0..6 each in the thorough tier) drawn from a pool of >= 40 (category, atomic unit) pairs over >= 12 quantity "
         "types with several categories per type (length/depth/diameter..., time/date, pressure/yield stress ...), "
         "exponents 1..4 each side, combined in random order by * / ** and 1/x on Scalars or on Quantity objects; "
         "(b) random expression trees of depth <= 4 over the same pool; (c) entry dicts handed to ObtainQuantity "
@@ -38,6 +44,8 @@ EXHAUSTIVE = {"quick": False, "thorough": False}
 ASSUMPTIONS = ["the model receives the quantity's internal entry list and the registry lookups (category -> quantity "
                "type, (type, unit) -> name) as data read from the real objects; how arithmetic produces the entry "
                "list is engine Alg's business (C03/C04), how lookups resolve is engine Conv's (C01/C02)",
+               "the entry list is that of an existing quantity: whether a unit is valid for its category (the check in the "
+               "simple branch of Quantity.__init__, legacy spellings) is engine Conv's business and is not modelled here",
                "value formatting inside repr/str (str(float), '%g') is taken from Python; only the unit part is modelled"]
 
 CORE_TYPES = ["length", "time", "mass", "temperature", "pressure", "force", "dimensionless", "electric current",
@@ -351,7 +359,7 @@ def _gen(ctx, salt, scale):
     n_tree = (600 if not thorough else 9000) * scale
     n_dict = (500 if not thorough else 5000) * scale
     n_mk = (300 if not thorough else 3000) * scale
-    max_side = 4
+    max_side = 6 if thorough else 4
     for i in range(n_prof):
         tree, rd = _profile(ctx, rng, max_side)
         kind = "expr" if (rd or rng.random() < 0.7) else "quant"
@@ -526,10 +534,10 @@ def agree(c, io, mo, ctx):
         return "atomicity verdicts differ"
     if m["all_atomic"] and pm != written(jm):
         return "model: parse . render is not the written joined factors (contradicts theorem parse_render)"
-    k = "den%d" % min(4, sum(1 for _u2, e in jm if e < 0))
+    k = "den%d" % min(6, sum(1 for _u2, e in jm if e < 0))
     ctx.notes.setdefault("denominator_factors", {})
     ctx.notes["denominator_factors"][k] = ctx.notes["denominator_factors"].get(k, 0) + 1
-    k = "entries%d" % min(8, len(t["entries"]))
+    k = "entries%d" % min(12, len(t["entries"]))
     ctx.notes.setdefault("entry_counts", {})
     ctx.notes["entry_counts"][k] = ctx.notes["entry_counts"].get(k, 0) + 1
     return None
